@@ -173,6 +173,8 @@ theorem LInv.legalizeLoop (fully : Bool) (fuel : Nat) {s : St} (hs : LInv s) (st
       simp only [St.legalizeLoop]
       split
       · exact ih hs rest
+      split
+      · exact ih hs rest
       · rename_i hg
         split
         · rename_i hin
